@@ -627,3 +627,53 @@ def rule_tokenizer_rejections(ck, repo, R):
         ck.decide(ok, R, f'accept:{tt}:{tok!r}:{c}', None, f'_tokenize in state token_type={tt}, pending token={tok!r} rejects the legal character {c!r}',
                   file=f.file, line=loop.lineno, func='_tokenize')
     ck.floor(R, 40)
+
+
+def rule_leniency_scope(ck, repo, R):
+    ck.rule(R, 'the only rejections of parser() that the leniency flag (strong_cycle, i.e. smiles(ignore=...)) may turn into a log line are those for a ring '
+               'closure whose bond symbol is written on ONE end only; every raise that depends on the flag sits on a path where exactly one of the two ends '
+               '(`ob` = symbol at the opening digit, `previous` = symbol at the closing digit) carries a symbol. Contradictory symbols on both ends are outside the '
+               'language under every setting')
+    f = repo.func('chython.files.daylight.parser:parser')
+    ck.require(f is not None, 'parser() not found')
+    flag = f.params()[1] if len(f.params()) > 1 else None
+    ck.require(flag is not None, 'parser(): leniency parameter not found')
+    parents = {}
+    for p_ in ast.walk(f.node):
+        for ch in ast.iter_child_nodes(p_):
+            parents[ch] = p_
+    # the two places a closure bond symbol can be held: names unpacked as (type, value) pairs
+    holders = {a.value.id for a in ast.walk(f.node) if isinstance(a, ast.Assign) and isinstance(a.targets[0], ast.Tuple) and len(a.targets[0].elts) == 2 and
+               isinstance(a.value, ast.Name)}
+    ck.require(len(holders) == 2, f'parser(): the two bond-symbol holders of a ring closure were not recognised ({sorted(holders)})')
+    n = 0
+    for r in ast.walk(f.node):
+        if not isinstance(r, ast.Raise):
+            continue
+        # path literals: truthiness of plain names along the enclosing if-chains
+        facts, under_flag = {}, False
+        child, p_ = r, parents.get(r)
+        while p_ is not None and p_ is not f.node:
+            if isinstance(p_, ast.If):
+                in_body = any(child is s_ for s_ in p_.body)
+                t, pol = p_.test, in_body
+                while isinstance(t, ast.UnaryOp) and isinstance(t.op, ast.Not):
+                    t, pol = t.operand, not pol
+                if isinstance(t, ast.Name):
+                    if t.id == flag:
+                        under_flag = under_flag or in_body or True
+                    else:
+                        facts.setdefault(t.id, pol)
+                elif any(isinstance(x, ast.Name) and x.id == flag for x in ast.walk(p_.test)):
+                    under_flag = True
+            child, p_ = p_, parents.get(p_)
+        if not under_flag:
+            continue
+        n += 1
+        held = {k: v for k, v in facts.items() if k in holders}
+        ck.decide(len(held) == 2 and len(set(held.values())) == 2, R, f'raise@{sorted(held.items())}', held,
+                  f'parser(): a rejection that depends on `{flag}` is reached with the bond-symbol holders in state {held}; only a closure with a symbol on exactly '
+                  f'one end (one holder set, the other empty) may be tolerated, this one is silently accepted under the default ignore=True',
+                  file=f.file, line=r.lineno, func='parser')
+    ck.count(f'{R}: flag-dependent rejections', n)
+    ck.floor(R, 2)
